@@ -127,6 +127,9 @@ class I2(Interp):
         if m:
             k = f'<{m.group(1).split("::")[-1]} as {m.group(2).split("::")[-1]}>::{m.group(4)}'
             if k in RES: return self.fns[RES[k]]
+            # trait default method: `<mod>::Trait::method`
+            dflt = [n for n in self.by_suffix.get(m.group(4), []) if n.endswith('::' + m.group(2).split('::')[-1] + '::' + m.group(4)) or n == m.group(2).split('::')[-1] + '::' + m.group(4)]
+            if len(dflt) == 1: return self.fns[dflt[0]]
         return None
     def find_fn(self, name):
         if name in self.fns: return self.fns[name]
